@@ -417,7 +417,7 @@ pub fn expr<'tcx>(cx: &Cx<'tcx>, e: &hir::Expr<'tcx>) -> J {
         }
         K::AssignOp(op, l, r) => {
             kind = "AssignOp";
-            extra.push(("op", s(format!("{:?}", op.node))));
+            extra.push(("op", s(format!("{:?}", op.node).trim_end_matches("Assign").to_string())));
             if cx.typeck.is_method_call(e) {
                 callee_of(cx, e.hir_id, &mut extra);
             }
